@@ -340,6 +340,26 @@ theorem multi_send_le_recv (progs : List (List Exchange)) (sched : List MChoice)
   rw [rows_order_multi]
   exact callRows_times _ _ ((MTime.init progs).exec sched).calls
 
+/-- **the single-producer system is the one-task instance.**  Every schedule of the single-producer system of the first
+    part (`exec`, one scanner task) is a schedule of the several-producer system with one task (`embedSched`: a producer
+    step becomes "time passes, the task enters `ECU._request`, time passes, its exchange ends"); writer, client-side state,
+    clock and the performed exchanges coincide. -/
+theorem single_producer_is_instance (h : List Exchange) (sched : List Choice) :
+    (mexec (MSys.init [h]) (embedSched (Sys.init h) sched)).toWriter = (exec (Sys.init h) sched).toWriter ∧
+    (mexec (MSys.init [h]) (embedSched (Sys.init h) sched)).ecu = (exec (Sys.init h) sched).ecu ∧
+    (mexec (MSys.init [h]) (embedSched (Sys.init h) sched)).clock = (exec (Sys.init h) sched).clock ∧
+    (mexec (MSys.init [h]) (embedSched (Sys.init h) sched)).calls.map (·.ex) = (exec (Sys.init h) sched).done := by
+  have := (Sim.init h).exec sched
+  exact ⟨this.writer, this.ecu, this.clock, this.calls⟩
+
+/-- hence the rows the single producer leaves are those `rows_order_multi` gives for the one-task system: the old
+    `rows_eq_history_under_faults` is the single-producer case of the several-producer theorem -/
+theorem single_producer_rows_from_multi (h : List Exchange) (sched : List Choice) :
+    afterDisconnect (exec (Sys.init h) sched) =
+      callRows .init (mexec (MSys.init [h]) (embedSched (Sys.init h) sched)).calls := by
+  rw [afterDisconnect_eq, ← (single_producer_is_instance h sched).1]
+  exact rows_order_multi [h] _
+
 /-- a task cancelled while it *waits* for the mutex leaves a row without reply and exception (its `finally` runs), although
     its request was never transmitted: the call is in `calls` with `granted = false` and not in `wire` -/
 theorem cancelled_waiter_row (s : MSys) (i : Nat) (t : Task) (t0 : Nat) (e : Exchange) (rest : List Exchange)
